@@ -353,3 +353,70 @@ def sync_wrapper_rows(k):
         rows.append(WRow("w_filter_map", "?|>", K, lambda e: Iter(e[1]) if e[0] == "Opt" and nameable(e) else None))
         rows.append(WRow("w_find_map", "?|>@", K, lambda e: e if e[0] == "Opt" and nameable(e) else None))
     return rows
+
+
+# ---------------------------------------------------------------------------------------------
+# async table (futures 0.3: FutureExt / TryFutureExt / StreamExt / TryStreamExt)
+# ---------------------------------------------------------------------------------------------
+def async_rows(k, site):
+    rows = []
+    h = k[0]
+    S = site
+
+    def add(label, op, operands, out, pinned=False):
+        if depth(out) <= MAXDEPTH + 1:
+            rows.append(Row(label, op, operands, out, pinned))
+
+    if h == "Fut":
+        K_ = k[1]
+        if K_[0] == "Fut":
+            add("flatten", "^^>", [], K_)
+            return rows
+        if not nameable(K_):
+            return rows
+        t = T(K_)
+        add("map", "|>", ["|v: %s| { %s; v.bump() }" % (t, evs(S))], k)
+        add("inspect", "??", ["|v: &%s| { %s; }" % (t, evs(S))], k)
+        add("dot_then", "..", ["then(|v: %s| { %s; ready(v.bump()) })" % (t, evs(S))], k)
+        add("dot2_then", ">.", ["then(|v: %s| { %s; ready(v.bump()) })" % (t, evs(S))], k)
+        add("then_boxed", "->", ["futures::FutureExt::boxed"], k)
+        add("map_ready", "|>", ["|v: %s| { %s; ready(v) }" % (t, evs(S))], Fut(k))
+        add("dot_into_stream", "..", ["into_stream()"], Str(K_))
+        if K_[0] == "Res" and nameable(K_[1]):
+            ti = T(K_[1])
+            add("and_then", "=>", ["|v: %s| { %s; ready(if v.p() { Ok::<%s, i32>(v.bump()) } else { Err(5) }) }" % (ti, evs(S), ti)], k)
+            add("or_else", "<=", ["|e: i32| { ev(\"%s\", &e); ready(if e.p() { Ok::<%s, i32>(<%s as D>::d()) } else { Err(e + 1) }) }" % (S, ti, ti)], k)
+            add("map_err", "!>", ["|e: i32| { ev(\"%s\", &e); e + 3 }" % S], k)
+    elif h == "Str":
+        K_ = k[1]
+        t = T(K_)
+        add("map", "|>", ["|v: %s| { %s; v.bump() }" % (t, evs(S))], k)
+        add("filter", "?>", ["|v: &%s| { %s; ready(v.p()) }" % (t, evs(S))], k)
+        add("filter_map", "?|>", ["|v: %s| { %s; ready(if v.p() { Some(v.bump()) } else { None }) }" % (t, evs(S))], k)
+        add("chain", ">@>", ['lg("%s", iter(<Vec<%s> as D>::d()))' % (S, t)], k)
+        add("dot_skip", "..", ["skip(1)"], k)
+        add("inspect", "??", ["|v: &%s| { %s; }" % (t, evs(S))], k)
+        add("enumerate", "|n>", [], Str(Tup(USIZE, K_)))
+        add("zip", ">^>", ['lg("%s", iter(vec![7i32, 8, 9]))' % S], Str(Tup(K_, INT)))
+        add("fold", "^@", ["0i32", "|acc: i32, v: %s| { %s; ready(acc.wrapping_mul(3).wrapping_add(v.w())) }" % (t, evs(S))], Fut(INT))
+        add("collect_t", "=>[]", ["Vec<%s>" % t], Fut(Vec(K_)))
+        if K_[0] == "Tup":
+            a, b = T(K_[1]), T(K_[2])
+            add("unzip_t", "<->", [a, b, "Vec<%s>" % a, "Vec<%s>" % b], Fut(Tup(Vec(K_[1]), Vec(K_[2]))))
+        if K_[0] == "Res" and nameable(K_[1]):
+            ti = T(K_[1])
+            add("try_and_then", "=>", ["|v: %s| { %s; ready(if v.p() { Ok::<%s, i32>(v.bump()) } else { Err(5) }) }" % (ti, evs(S), ti)], k)
+            add("try_map_err", "!>", ["|e: i32| { ev(\"%s\", &e); e + 3 }" % S], k)
+            add("try_fold", "?^@", ["0i32", "|acc: i32, v: %s| { %s; ready(if v.p() { Ok::<i32, i32>(acc.wrapping_mul(3).wrapping_add(v.w())) } else { Err(6) }) }" % (ti, evs(S))], Fut(Res(INT)))
+            add("try_collect", "..", ["try_collect::<Vec<%s>>()" % ti], Fut(Res(Vec(K_[1]))))
+    return rows
+
+
+ASYNC_STARTS = [
+    (Fut(INT), "ready(int(0))", [[2], [3]]),
+    (Fut(Res(INT)), "ready(res(0))", [[2], [3], [-7]]),
+    (Fut(Opt(INT)), "ready(opt(0))", [[2], [0]]),
+    (Str(INT), "iter(vc(0))", [[0], [1], [2], [3]]),
+    (Str(Res(INT)), "iter(vcres(0))", [[0], [1], [2]]),
+    (Str(Tup(INT, INT)), "iter(vctup(0))", [[0], [1], [2]]),
+]
